@@ -62,8 +62,8 @@ def gen_case(rng: random.Random, which: int):
         existing = [i for i in space if i not in reserved]
     else:
         existing = rng.sample(space, k=len(space) - rng.choice([1, 2, 3]))
-    if which == 5:
-        existing = []  # the rebuild starts from the used switches only
+    # which == 5: "existing" are the switches that only have a name in the map's SWNM section (no trigger uses
+    # them); a request carrying such an index is the very same switch, found again in a trigger
     free = [i for i in space if i not in existing]
     reqs = []
     for _ in range(rng.choice([0, 1, 2, 3, 5, 8])):
@@ -175,14 +175,16 @@ def run_impl(M, which, existing, reqs):
             return [([1, by_name[o.custom_name.value]] if o.custom_name.value in by_name else [0]) for o in objs], \
                    [s.index for s in sec.switches]
     else:
-        objs = [M["RichSwitch"](M["RichString"](f"n{nxt()}"), (r[1] if r[0] == "carry" else None)) for r in reqs]
+        objs = [M["RichSwitch"](M["RichString"](f"e{r[1]}" if (r[0] == "carry" and r[1] in existing) else f"n{nxt()}"),
+                                (r[1] if r[0] == "carry" else None)) for r in reqs]
         R = M["RichSwnmRebuilder"]
+        named = M["RichSwnmSection"](_switches=[M["RichSwitch"](M["RichString"](f"e{i}"), i) for i in existing])
 
         def f():
             orig = R._find_all_switches_in_rich_chk
             R._find_all_switches_in_rich_chk = classmethod(lambda cls, chk: OrderedBag(objs))
             try:
-                sec, lookup = R.rebuild_rich_swnm_from_rich_chk(M["RichChk"](_chk_sections=[]))
+                sec, lookup = R.rebuild_rich_swnm_from_rich_chk(M["RichChk"](_chk_sections=[named] if existing else []))
             finally:
                 R._find_all_switches_in_rich_chk = orig
             outs = []
@@ -209,7 +211,7 @@ def oracle(which, existing, reqs, res, final):
         # raising is right only when slots are genuinely short
         carried_free = {r[1] for r in reqs if r[0] == "carry" and r[1] in free}
         if which == 5:
-            carried_free = {r[1] for r in reqs if r[0] == "carry"}
+            carried_free = {r[1] for r in reqs if r[0] == "carry"} | set(existing)
             free = [i for i in range(lo, hi + 1) if i not in carried_free]
             if any(r[0] == "carry" and r[1] > hi for r in reqs):
                 return None
@@ -232,8 +234,8 @@ def oracle(which, existing, reqs, res, final):
                 i = o[1]
                 if not (lo <= i <= hi) or i in reserved:
                     return f"new id {i} outside the range / reserved"
-                if which != 5 and i in existing:
-                    return f"new id {i} was not free"
+                if i in existing:
+                    return f"new id {i} was not free" + (" (it belongs to a switch that has a name in the SWNM)" if which == 5 else "")
                 if which == 5 and any(q[0] == "carry" and q[1] == i for q in reqs):
                     return f"new id {i} is an index a used switch carries"
             elif which != 1:
@@ -250,6 +252,10 @@ def oracle(which, existing, reqs, res, final):
 def model_line(which, existing, reqs):
     def rq(r):
         return "(1 %d)" % r[1] if r[0] == "carry" else ("(2)" if r[0] == "skip" else "(0)")
+    if which == 5:
+        # the rebuild iterates the trigger switches, then the named SWNM switches not among them, by index
+        have = {r[1] for r in reqs if r[0] == "carry"}
+        reqs = list(reqs) + [("carry", k) for k in sorted(existing) if k not in have]
     return f"({which} ({' '.join(map(str, existing))}) ({' '.join(rq(r) for r in reqs)}))"
 
 
@@ -313,6 +319,10 @@ def run(ck: vlib.Check):
     if drv_ok:
         got = vlib.run_model(PROP, lines)
         got = [g if g.startswith("(1 ") else "(0)" for g in got]
+        for i, (which, existing, reqs) in enumerate(cases):
+            if which == 5 and got[i].startswith("(1 "):     # outcomes of the requests only (the SWNM-only switches follow)
+                t = vlib.parse_tree(got[i])
+                got[i] = vlib.T([1, t[1][:len(reqs)]])
         mism = [i for i, (g, e) in enumerate(zip(got, exp)) if g != e]
         ck.corr_count("allocators: impl outcome per object vs extracted model", len(lines), len(mism))
         if mism:
